@@ -14,7 +14,7 @@ open Esp Drv
 structure St where
   plain : Plain.State := {}
   noiseCfg : Noise.Config := { expectedName := none, hs := fun _ => .raises, utf8 := fun _ => true }
-  noise : Noise.State := {}
+  noise : Noise.Helper := {}
 
 def showPlainErr : Option PlainErr → String
   | none => "none" | some .requiresEncryption => "requiresEncryption" | some .protocol => "protocol"
@@ -101,16 +101,23 @@ def step (st : St) (line : String) : St × String :=
     match hexToBytes hx with
     | none => (st, "bad-op")
     | some chunk =>
-      let r := Noise.feed st.noiseCfg symAead st.noise chunk
-      ({ st with noise := r.1 }, showNoise r)
+      let r := Noise.feed st.noiseCfg symAead.dec st.noise chunk
+      ({ st with noise := r.1 }, showNoise (r.1.st, r.2))
   | ["noise.lost", k] =>
     let x : Option (Option Noise.Exc) := match k with
       | "none" => some none | "reset" => some (some .reset) | "other" => some (some .other) | _ => none
     match x with
     | none => (st, "bad-op")
-    | some x => let r := Noise.connectionLost st.noise x; ({ st with noise := r.1 }, showNoise r)
+    | some x => let r := Noise.connectionLost st.noise.st x; ({ st with noise := { st.noise with st := r.1 } }, showNoise r)
+  | ["noise.psk", d] =>
+    let dec : Option (Option Bytes) := if d == "none" then some none else (hexToBytes d).map some
+    match dec with
+    | none => (st, "bad-op")
+    | some dec => match Noise.checkPsk dec with
+      | .ok _ => (st, "psk ok")
+      | .error e => (st, s!"psk err:{showNoiseErr e}")
   | ["noise.eof"] =>
-    let r := Noise.eofReceived st.noise; ({ st with noise := r.1 }, showNoise r)
+    let r := Noise.eofReceived st.noise.st; ({ st with noise := { st.noise with st := r.1 } }, showNoise r)
   | _ => (st, "bad-op")
 
 partial def loop (h : IO.FS.Stream) (out : IO.FS.Stream) (st : St) : IO Unit := do
